@@ -34,7 +34,7 @@ func VerifNewBeaconProcess(id string, priv *key.Pair, group *key.Group, share *k
 	}
 }
 
-func VerifNewDaemon(l log.Logger, d DKGProcess, bps map[string]*BeaconProcess) *DrandDaemon {
+func VerifNewDaemonC14(l log.Logger, d DKGProcess, bps map[string]*BeaconProcess) *DrandDaemon {
 	dd := &DrandDaemon{
 		opts:            &Config{logger: l, clock: clock.NewRealClock()},
 		log:             l,
